@@ -86,7 +86,7 @@ claim("C01", "DESIGN.md 5/C01", "Lean 4 induction over fuel and rank on the exec
       "program between runs (a value in the model: the copy is the program), consumers added through the API with command objects as argument values, and a referenced command deleted and added again under its name after a failed run "
       "(the `del` step lives in the driver, outside the theorems).", PB)
 claim("C02", "DESIGN.md 5/C02", "Lean 4 theorems (the run computes a solution of the graph equations; solutions are unique) + replay of every real execute call on the model + invariance oracles",
-      "Theorems in MPilot.C02: run_sol (after a successful run every memoised result equals compute applied to the results of the commands it reads), sol_unique "
+      "MPilot.C02 (Props/C02Meta.lean): sol_unique_rel and metadata_inert - two models whose commands correspond one to one and differ only in the Metadata arguments (added, removed, changed, on any commands) compute the same result for every command, for bodies that do not read that argument (a fact about the execute bodies which the replay of every real execute call on the metadata-free model command establishes). Theorems in MPilot.C02: run_sol (after a successful run every memoised result equals compute applied to the results of the commands it reads), sol_unique "
       "(an acyclic graph has at most one such assignment: its evaluation), results_order_independent (any permutation of the commands gives the same results), "
       "results_unaffected_by_added_commands; data_feeds_data / data_list_feeds / data_wrong_fuzziness (any command declaring a data output of compatible fuzziness is accepted by a data input, directly or in a list, before and after it has run; the wrong fuzziness is refused with the specific error). Metadata never reaches compute of the data commands (DataCmd has no such field). Each real execute call made while running "
       "random typed EEMS models is replayed on the model's exec with its actual inputs; order/metadata/consumer invariance is evaluated on the real programs; every EEMSRead of a model "
